@@ -402,3 +402,432 @@ Lemma accessors_agree :
     (forall rel, get r rel <> None <-> (fst rel < height r /\ snd rel < width r)) /\
     start r = option_map fst (rect r) /\ end_ r = option_map snd (rect r).
 Proof. intros T d teqb r. apply accessors_agree_sec. Qed.
+
+(* ---------------------------------------------------------------------------------------- *)
+(* Non-vacuity of the history theorem                                                       *)
+(* ---------------------------------------------------------------------------------------- *)
+Lemma history_nonvacuous :
+  let ops := [ONew (1, 1) (2, 3); OSetValue (4, 5) 7; OSetValue (1, 1) 9;
+              OWindow (0, 0) (3, 3); OFromSparse [((2, 3), 5); ((4, 1), 6)];
+              OEmpty; OSetValue (3, 3) 1] in
+  Wf (@empty N) /\ pre_all 0 (@empty N) ops /\
+  exists r, run 0 (@empty N) ops = Ok r /\ r_inner r = [1].
+Proof.
+  cbv zeta. split; [left; reflexivity|]. split.
+  - cbn [pre_all pre].
+    split; [vm_compute; intuition discriminate|]. intros r1 E1. vm_compute in E1. injection E1 as <-.
+    split; [vm_compute; intuition discriminate|]. intros r2 E2. vm_compute in E2. injection E2 as <-.
+    split; [vm_compute; intuition discriminate|]. intros r3 E3. vm_compute in E3. injection E3 as <-.
+    split; [vm_compute; intuition discriminate|]. intros r4 E4. vm_compute in E4. injection E4 as <-.
+    split.
+    { split; [vm_compute; intuition discriminate|]. split; [|vm_compute; intuition discriminate].
+      intros c [<-|[<-|[]]]; vm_compute; intuition discriminate. }
+    intros r5 E5. vm_compute in E5. injection E5 as <-.
+    split; [exact I|]. intros r6 E6. vm_compute in E6. injection E6 as <-.
+    split; [left; reflexivity|]. intros r7 E7. exact I.
+  - eexists. split; vm_compute; reflexivity.
+Qed.
+
+(* ---------------------------------------------------------------------------------------- *)
+(* Growing a rectangular vector (nat-indexed)                                               *)
+(* ---------------------------------------------------------------------------------------- *)
+Section GridExt.
+Variable T : Type.
+Variable d : T.
+
+(* l1 is an H' x W' grid that agrees with the H x W grid l on the common cells and holds the
+   default everywhere else *)
+Definition grid_ext (l : list T) (H W : nat) (l1 : list T) (H' W' : nat) : Prop :=
+  length l1 = (H' * W')%nat /\
+  forall i j, (i < H')%nat -> (j < W')%nat ->
+    nth_error l1 (i * W' + j) =
+      if (i <? H)%nat && (j <? W)%nat then nth_error l (i * W + j) else Some d.
+
+Lemma grid_ext_refl : forall (l : list T) H W, length l = (H * W)%nat -> grid_ext l H W l H W.
+Proof.
+  intros l H W Hl. split; [assumption|]. intros i j Hi Hj.
+  destruct (Nat.ltb_spec i H); [|lia]. destruct (Nat.ltb_spec j W); [|lia]. reflexivity.
+Qed.
+
+Lemma grid_ext_rows : forall (l : list T) H W H', length l = (H * W)%nat -> (H <= H')%nat ->
+  grid_ext l H W (l ++ repeat d ((H' - H) * W)) H' W.
+Proof.
+  intros l H W H' Hl HH. split; [rewrite app_length, repeat_length; nia|].
+  intros i j Hi Hj. destruct (Nat.ltb_spec j W); [|lia]. rewrite andb_true_r.
+  destruct (Nat.ltb_spec i H).
+  - apply nth_error_app1. nia.
+  - rewrite nth_error_app2 by nia. apply nth_error_repeat. nia.
+Qed.
+
+Lemma grid_ext_cols : forall (l : list T) H W H' W',
+  (0 < W)%nat -> length l = (H * W)%nat -> (H <= H')%nat -> (W <= W')%nat ->
+  grid_ext l H W
+    (flat_map (fun row => row ++ repeat d (W' - W)) (chunks W l) ++ repeat d (W' * (H' - H)))
+    H' W'.
+Proof.
+  intros l H W H' W' HW Hl HH HWW. rewrite flat_map_concat_map.
+  set (pad := fun row : list T => row ++ repeat d (W' - W)).
+  assert (HF : Forall (fun row => length row = W') (map pad (chunks W l))).
+  { apply Forall_map. eapply Forall_impl; [|apply chunks_Forall with (h := H); assumption].
+    intros row Hr. unfold pad. cbv beta in *. rewrite app_length, repeat_length. lia. }
+  assert (Hlen : length (concat (map pad (chunks W l))) = (H * W')%nat).
+  { rewrite (@concat_rect_length T W' _ HF), map_length, (@chunks_length T H W l HW Hl). reflexivity. }
+  split; [rewrite app_length, repeat_length, Hlen; nia|].
+  intros i j Hi Hj. destruct (Nat.ltb_spec i H) as [HiH|HiH]; cbn [andb].
+  - rewrite nth_error_app1 by (rewrite Hlen; nia).
+    rewrite (@concat_rect_nth T W' _ i j HF Hj), nth_error_map, (@chunks_nth T H W l i HW Hl).
+    destruct (Nat.ltb_spec i H); [|lia]. cbn [option_map]. unfold pad.
+    assert (Hrow : length (firstn W (skipn (i * W) l)) = W)
+      by (rewrite firstn_length, skipn_length; nia).
+    destruct (Nat.ltb_spec j W).
+    + rewrite nth_error_app1 by lia. apply chunk_nth. assumption.
+    + rewrite nth_error_app2 by lia. apply nth_error_repeat. lia.
+  - rewrite nth_error_app2 by (rewrite Hlen; nia). apply nth_error_repeat. rewrite Hlen. nia.
+Qed.
+
+End GridExt.
+
+(* ---------------------------------------------------------------------------------------- *)
+(* Range::set_value                                                                         *)
+(* ---------------------------------------------------------------------------------------- *)
+Section SetValue.
+Variable T : Type.
+Variable d : T.
+
+(* the last statements of set_value, after the vector has been grown to r1 *)
+Definition sv_finish (sr sc pr pc : N) (v : T) (r1 : range T) : outcome (range T) :=
+  let idx := (pr - sr) * width r1 + (pc - sc) in
+  if idx <? N.of_nat (length (r_inner r1))
+  then Ok (mkRange (r_start r1) (r_end r1) (list_set (r_inner r1) (N.to_nat idx) v))
+  else Panic.
+
+Lemma pos_eqb_true : forall a b : pos, pos_eqb a b = true <-> a = b.
+Proof.
+  intros [a1 a2] [b1 b2]. unfold pos_eqb. cbn [fst snd]. split.
+  - intro H. f_equal; lia.
+  - intro H. injection H as -> ->. lia.
+Qed.
+
+Lemma flat_index_inj : forall W a b a' b' : N,
+  b < W -> b' < W -> a * W + b = a' * W + b' -> a = a' /\ b = b'.
+Proof. intros W a b a' b' Hb Hb' H. destruct (N.lt_trichotomy a a') as [Ha|[Ha|Ha]]; nia. Qed.
+
+Lemma sv_finish_spec : forall sr sc er ec (l : list T) pr pc v er' ec' l1,
+  sr <= er -> sc <= ec ->
+  N.of_nat (length l) = (er - sr + 1) * (ec - sc + 1) ->
+  sr <= pr -> sc <= pc -> er' = N.max er pr -> ec' = N.max ec pc ->
+  grid_ext d l (N.to_nat (er - sr + 1)) (N.to_nat (ec - sc + 1))
+           l1 (N.to_nat (er' - sr + 1)) (N.to_nat (ec' - sc + 1)) ->
+  exists r', sv_finish sr sc pr pc v (mkRange (sr, sc) (er', ec') l1) = Ok r' /\ Wf r' /\
+    rect r' = Some (bbox (rect (mkRange (sr, sc) (er, ec) l)) (pr, pc)) /\
+    forall q, get_value r' q =
+      if pos_eqb q (pr, pc) then Some v
+      else if in_rect r' q then Some (cell_or d (mkRange (sr, sc) (er, ec) l) q) else None.
+Proof.
+  intros sr sc er ec l pr pc v er' ec' l1 H1 H2 Hl Hp1 Hp2 Her Hec [Hl1 Hnth].
+  assert (H1' : sr <= er') by lia. assert (H2' : sc <= ec') by lia.
+  assert (Hl1' : N.of_nat (length l1) = (er' - sr + 1) * (ec' - sc + 1)) by lia.
+  unfold sv_finish. cbn [r_start r_end r_inner].
+  assert (Hw1 : width (mkRange (sr, sc) (er', ec') l1) = ec' - sc + 1).
+  { unfold width. rewrite (ne_mk _ _ _ _ _ Hl1'). reflexivity. }
+  rewrite Hw1.
+  destruct (_ <? N.of_nat (length l1)) eqn:Eidx; [|nia].
+  eexists; split; [reflexivity|].
+  set (idx := (pr - sr) * (ec' - sc + 1) + (pc - sc)) in *.
+  assert (Hl2 : N.of_nat (length (list_set l1 (N.to_nat idx) v)) = (er' - sr + 1) * (ec' - sc + 1))
+    by (rewrite list_set_length; assumption).
+  split; [apply Wf_mk; assumption|].
+  split.
+  { rewrite !rect_mk by assumption. unfold bbox. cbn [fst snd].
+    rewrite (N.min_l sr pr), (N.min_l sc pc) by assumption. subst er' ec'. reflexivity. }
+  intro q. unfold in_rect. rewrite (rect_mk _ _ _ _ _ Hl2).
+  rewrite (@get_value_mk T sr sc er' ec' _ q H1' H2' Hl2).
+  destruct (pos_eqb q (pr, pc)) eqn:Eq.
+  - apply pos_eqb_true in Eq. subst q. cbn [fst snd].
+    destruct (in_box (sr, sc) (er', ec') (pr, pc)) eqn:Eb; [|unfold in_box in Eb; cbn [fst snd] in Eb; lia].
+    replace (N.to_nat (pr - sr) * N.to_nat (ec' - sc + 1) + N.to_nat (pc - sc))%nat
+      with (N.to_nat idx) by (unfold idx; lia).
+    apply nth_error_list_set_eq. lia.
+  - destruct (in_box (sr, sc) (er', ec') q) eqn:Eb; [|reflexivity].
+    destruct q as [qr qc]. cbn [fst snd].
+    assert (Hq : sr <= qr /\ qr <= er' /\ sc <= qc /\ qc <= ec')
+      by (unfold in_box in Eb; cbn [fst snd] in Eb; lia).
+    assert (Hne : ~ (qr = pr /\ qc = pc)).
+    { intros [-> ->]. assert (pos_eqb (pr, pc) (pr, pc) = true) by (apply pos_eqb_true; reflexivity).
+      congruence. }
+    rewrite nth_error_list_set_neq.
+    2:{ unfold idx. intro Hc.
+        assert (Hc' : (pr - sr) * (ec' - sc + 1) + (pc - sc) = (qr - sr) * (ec' - sc + 1) + (qc - sc)) by lia.
+        apply flat_index_inj in Hc'; lia. }
+    rewrite Hnth by lia.
+    unfold cell_or. rewrite (@get_value_mk T sr sc er ec l (qr, qc) H1 H2 Hl). cbn [fst snd].
+    destruct (in_box (sr, sc) (er, ec) (qr, qc)) eqn:Eb0.
+    + assert (Hq0 : qr <= er /\ qc <= ec) by (unfold in_box in Eb0; cbn [fst snd] in Eb0; lia).
+      destruct (Nat.ltb_spec (N.to_nat (qr - sr)) (N.to_nat (er - sr + 1))); [|lia].
+      destruct (Nat.ltb_spec (N.to_nat (qc - sc)) (N.to_nat (ec - sc + 1))); [|lia].
+      cbn [andb].
+      destruct (nth_error l _) as [x|] eqn:En; [reflexivity|].
+      apply nth_error_None in En.
+      pose proof (@box_index_lt sr sc er ec (qr, qc) _ Eb0 Hl) as Hlt. cbn [fst snd] in Hlt. lia.
+    + assert (Hq0 : ~ (qr <= er /\ qc <= ec)) by (unfold in_box in Eb0; cbn [fst snd] in Eb0; lia).
+      destruct (Nat.ltb_spec (N.to_nat (qr - sr)) (N.to_nat (er - sr + 1)));
+      destruct (Nat.ltb_spec (N.to_nat (qc - sc)) (N.to_nat (ec - sc + 1))); cbn [andb];
+        try reflexivity. lia.
+Qed.
+
+Lemma set_value_spec_sec : forall (r : range T) (p : pos) (v : T),
+    Wf r -> pre r (OSetValue p v) ->
+    exists r', set_value d r p v = Ok r' /\ Wf r' /\
+      rect r' = Some (bbox (rect r) p) /\
+      forall q, get_value r' q =
+        if pos_eqb q p then Some v
+        else if in_rect r' q then Some (cell_or d r q) else None.
+Proof.
+  intros r p v HWf Hpre. cbn [pre] in Hpre.
+  destruct (is_empty r) eqn:Hemp.
+  - (* empty range: the result is the single cell *)
+    destruct r as [[sr sc] [er ec] l], p as [pr pc]. unfold set_value. cbn [r_start r_end].
+    rewrite Hemp. eexists; split; [reflexivity|].
+    assert (Hl : N.of_nat (length [v]) = (pr - pr + 1) * (pc - pc + 1)) by (cbn [length]; nia).
+    split; [apply Wf_mk; (lia || assumption)|].
+    split; [rewrite rect_mk by assumption; unfold rect; rewrite Hemp; reflexivity|].
+    intro q. unfold in_rect. rewrite rect_mk by assumption.
+    rewrite (@get_value_mk T pr pc pr pc [v] q (N.le_refl _) (N.le_refl _) Hl).
+    destruct (pos_eqb q (pr, pc)) eqn:Eq.
+    + apply pos_eqb_true in Eq. subst q. cbn [fst snd].
+      destruct (in_box (pr, pc) (pr, pc) (pr, pc)) eqn:Eb;
+        [|unfold in_box in Eb; cbn [fst snd] in Eb; lia].
+      replace (N.to_nat (pr - pr) * N.to_nat (pc - pc + 1) + N.to_nat (pc - pc))%nat with 0%nat by lia.
+      reflexivity.
+    + destruct (in_box (pr, pc) (pr, pc) q) eqn:Eb; [|reflexivity].
+      destruct q as [qr qc]. unfold in_box in Eb. cbn [fst snd] in Eb.
+      assert (Hq : (qr, qc) = (pr, pc)) by (f_equal; lia).
+      apply pos_eqb_true in Hq. congruence.
+  - (* non-empty range *)
+    destruct Hpre as [Hpre|(Hle & Hb1 & Hb2)]; [congruence|].
+    destruct (Wf_ne HWf Hemp) as (H1 & H2 & Hh & Hw & Hl).
+    destruct r as [[sr sc] [er ec] l], p as [pr pc]. destruct Hle as [Hle1 Hle2].
+    cbn [r_start r_end r_inner fst snd] in *.
+    rewrite Hh, Hw in Hl.
+    unfold set_value. cbn [r_start r_end r_inner]. rewrite Hemp, Hh, Hw.
+    destruct ((sr <=? pr) && (sc <=? pc)) eqn:E0; [|lia]. cbn [negb].
+    destruct (er <? pr) eqn:Er; destruct (ec <? pc) eqn:Ec.
+    + (* more rows and more columns *)
+      unfold add32. destruct (pr - sr + 1 <=? U32MAX) eqn:Ea; [|lia]. cbn [obind].
+      destruct (pc - sc + 1 <=? U32MAX) eqn:Eb; [|lia]. cbn [obind].
+      destruct (ec - sc + 1 =? 0) eqn:Ez; [lia|]. cbn [obind].
+      apply (@sv_finish_spec sr sc er ec l pr pc v pr pc); try assumption; try lia.
+      replace (N.to_nat (pc - sc + 1 - (ec - sc + 1)))
+        with (N.to_nat (pc - sc + 1) - N.to_nat (ec - sc + 1))%nat by lia.
+      replace (N.to_nat ((pc - sc + 1) * (pr - sr + 1 - (er - sr + 1))))
+        with (N.to_nat (pc - sc + 1) * (N.to_nat (pr - sr + 1) - N.to_nat (er - sr + 1)))%nat by nia.
+      apply grid_ext_cols; lia.
+    + (* more rows *)
+      cbn [obind].
+      apply (@sv_finish_spec sr sc er ec l pr pc v pr ec); try assumption; try lia.
+      replace (N.to_nat ((pr - er) * (ec - sc + 1)))
+        with ((N.to_nat (pr - sr + 1) - N.to_nat (er - sr + 1)) * N.to_nat (ec - sc + 1))%nat by nia.
+      apply grid_ext_rows; lia.
+    + (* more columns *)
+      cbn [obind]. unfold add32.
+      destruct (pc - sc + 1 <=? U32MAX) eqn:Eb; [|lia]. cbn [obind].
+      destruct (ec - sc + 1 =? 0) eqn:Ez; [lia|]. cbn [obind].
+      apply (@sv_finish_spec sr sc er ec l pr pc v er pc); try assumption; try lia.
+      replace (N.to_nat (pc - sc + 1 - (ec - sc + 1)))
+        with (N.to_nat (pc - sc + 1) - N.to_nat (ec - sc + 1))%nat by lia.
+      replace (N.to_nat ((pc - sc + 1) * (er - sr + 1 - (er - sr + 1))))
+        with (N.to_nat (pc - sc + 1) * (N.to_nat (er - sr + 1) - N.to_nat (er - sr + 1)))%nat by nia.
+      apply grid_ext_cols; lia.
+    + (* inside the rectangle *)
+      cbn [obind].
+      apply (@sv_finish_spec sr sc er ec l pr pc v er ec); try assumption; try lia.
+      apply grid_ext_refl. lia.
+Qed.
+
+End SetValue.
+
+Lemma set_value_spec :
+  forall (T : Type) (d : T) (r : range T) (p : pos) (v : T),
+    Wf r -> pre r (OSetValue p v) ->
+    exists r', set_value d r p v = Ok r' /\ Wf r' /\
+      rect r' = Some (bbox (rect r) p) /\
+      forall q, get_value r' q =
+        if pos_eqb q p then Some v
+        else if in_rect r' q then Some (cell_or d r q) else None.
+Proof. intros T d. apply set_value_spec_sec. Qed.
+
+(* ---------------------------------------------------------------------------------------- *)
+(* Copying a window of one grid over another (nat-indexed)                                  *)
+(* ---------------------------------------------------------------------------------------- *)
+Section CopyRows.
+Variable T : Type.
+Variable d : T.
+
+Lemma copy_cols_ok : forall (src dst : list T) sc0 sc1 dc0 dc1,
+  (sc1 <= length src)%nat -> (sc0 <= sc1)%nat -> (dc1 <= length dst)%nat -> (dc0 <= dc1)%nat ->
+  (sc1 - sc0 = dc1 - dc0)%nat ->
+  copy_cols src dst sc0 sc1 dc0 dc1 =
+    Ok (firstn dc0 dst ++ firstn (sc1 - sc0) (skipn sc0 src) ++ skipn dc1 dst).
+Proof.
+  intros src dst sc0 sc1 dc0 dc1 H1 H2 H3 H4 H5. unfold copy_cols.
+  destruct (Nat.ltb_spec (length src) sc1); [lia|].
+  destruct (Nat.ltb_spec sc1 sc0); [lia|].
+  destruct (Nat.ltb_spec (length dst) dc1); [lia|].
+  destruct (Nat.ltb_spec dc1 dc0); [lia|].
+  destruct (Nat.eqb_spec (sc1 - sc0) (dc1 - dc0)); [|lia]. reflexivity.
+Qed.
+
+Lemma copied_length : forall (src dst : list T) sc0 sc1 dc0 dc1,
+  (sc1 <= length src)%nat -> (sc0 <= sc1)%nat -> (dc1 <= length dst)%nat -> (dc0 <= dc1)%nat ->
+  (sc1 - sc0 = dc1 - dc0)%nat ->
+  length (firstn dc0 dst ++ firstn (sc1 - sc0) (skipn sc0 src) ++ skipn dc1 dst) = length dst.
+Proof.
+  intros. rewrite !app_length, !firstn_length, !skipn_length. lia.
+Qed.
+
+Lemma copied_nth : forall (src dst : list T) sc0 sc1 dc0 dc1 j,
+  (sc1 <= length src)%nat -> (sc0 <= sc1)%nat -> (dc1 <= length dst)%nat -> (dc0 <= dc1)%nat ->
+  (sc1 - sc0 = dc1 - dc0)%nat ->
+  nth_error (firstn dc0 dst ++ firstn (sc1 - sc0) (skipn sc0 src) ++ skipn dc1 dst) j =
+    if (dc0 <=? j)%nat && (j <? dc1)%nat then nth_error src (j - dc0 + sc0) else nth_error dst j.
+Proof.
+  intros src dst sc0 sc1 dc0 dc1 j H1 H2 H3 H4 H5.
+  assert (L1 : length (firstn dc0 dst) = dc0) by (rewrite firstn_length; lia).
+  assert (L2 : length (firstn (sc1 - sc0) (skipn sc0 src)) = (sc1 - sc0)%nat)
+    by (rewrite firstn_length, skipn_length; lia).
+  destruct (Nat.leb_spec dc0 j) as [Hj|Hj]; cbn [andb].
+  - rewrite nth_error_app2 by lia. rewrite L1.
+    destruct (Nat.ltb_spec j dc1) as [Hj'|Hj'].
+    + rewrite nth_error_app1 by lia. rewrite nth_error_firstn_lt by lia.
+      rewrite nth_error_skipn_add. f_equal. lia.
+    + rewrite nth_error_app2 by lia. rewrite L2, nth_error_skipn_add. f_equal. lia.
+  - rewrite nth_error_app1 by lia. apply nth_error_firstn_lt. lia.
+Qed.
+
+Lemma copy_rows_ok : forall sc0 sc1 dc0 dc1 (src dst : list (list T)),
+  (sc0 <= sc1)%nat -> (dc0 <= dc1)%nat -> (sc1 - sc0 = dc1 - dc0)%nat ->
+  Forall (fun s => sc1 <= length s)%nat src -> Forall (fun t => dc1 <= length t)%nat dst ->
+  exists mid, copy_rows src dst sc0 sc1 dc0 dc1 = Ok mid /\
+    length mid = length dst /\
+    forall i, nth_error mid i =
+      match nth_error dst i with
+      | None => None
+      | Some t =>
+          match nth_error src i with
+          | Some s => Some (firstn dc0 t ++ firstn (sc1 - sc0) (skipn sc0 s) ++ skipn dc1 t)
+          | None => Some t
+          end
+      end.
+Proof.
+  intros sc0 sc1 dc0 dc1 src. induction src as [|s src IH]; intros dst H1 H2 H3 HS HD.
+  - exists dst. split; [destruct dst; reflexivity|]. split; [reflexivity|].
+    intro i. rewrite nth_error_nil'. destruct (nth_error dst i); reflexivity.
+  - destruct dst as [|t dst].
+    + exists []. split; [reflexivity|]. split; [reflexivity|]. intro i. rewrite !nth_error_nil'. reflexivity.
+    + inversion HS as [|? ? Hs HS']; subst. inversion HD as [|? ? Ht HD']; subst.
+      destruct (IH dst H1 H2 H3 HS' HD') as (mid & Hmid & Hlen & Hnth).
+      cbn [copy_rows]. rewrite copy_cols_ok by assumption. cbn [obind]. rewrite Hmid. cbn [obind].
+      eexists; split; [reflexivity|]. split; [cbn [length]; congruence|].
+      intros [|i]; cbn [nth_error]; [reflexivity|apply Hnth].
+Qed.
+
+(* the whole data flow of Range::range on rectangular vectors *)
+Lemma window_nat : forall (l ol : list T) SH SW OH OW srs sre sc0 sc1 ors ore dc0 dc1,
+  (0 < SW)%nat -> (0 < OW)%nat -> length l = (SH * SW)%nat -> length ol = (OH * OW)%nat ->
+  (forall n, n < OH * OW -> nth_error ol n = Some d)%nat ->
+  (srs <= sre)%nat -> (sre <= SH)%nat -> (sc0 <= sc1)%nat -> (sc1 <= SW)%nat ->
+  (ors <= ore)%nat -> (ore <= OH)%nat -> (dc0 <= dc1)%nat -> (dc1 <= OW)%nat ->
+  (sre - srs = ore - ors)%nat -> (sc1 - sc0 = dc1 - dc0)%nat ->
+  exists mid,
+    copy_rows (skipn srs (firstn sre (chunks SW l))) (skipn ors (firstn ore (chunks OW ol)))
+              sc0 sc1 dc0 dc1 = Ok mid /\
+    length (concat (firstn ors (chunks OW ol) ++ mid ++ skipn ore (chunks OW ol))) = (OH * OW)%nat /\
+    forall i j, (i < OH)%nat -> (j < OW)%nat ->
+      nth_error (concat (firstn ors (chunks OW ol) ++ mid ++ skipn ore (chunks OW ol))) (i * OW + j) =
+        if (ors <=? i)%nat && (i <? ore)%nat && (dc0 <=? j)%nat && (j <? dc1)%nat
+        then nth_error l ((i - ors + srs) * SW + (j - dc0 + sc0))
+        else Some d.
+Proof.
+  intros l ol SH SW OH OW srs sre sc0 sc1 ors ore dc0 dc1
+         HSW HOW Hl Hol Hd Hs1 Hs2 Hc1 Hc2 Ho1 Ho2 Hd1 Hd2 Hrows Hcols.
+  set (sall := chunks SW l). set (oall := chunks OW ol).
+  assert (LS : length sall = SH) by (apply chunks_length; assumption).
+  assert (LO : length oall = OH) by (apply chunks_length; assumption).
+  assert (FS : Forall (fun row => length row = SW) sall) by (apply chunks_Forall with (h := SH); assumption).
+  assert (FO : Forall (fun row => length row = OW) oall) by (apply chunks_Forall with (h := OH); assumption).
+  assert (NS : forall i, (i < SH)%nat -> nth_error sall i = Some (firstn SW (skipn (i * SW) l))).
+  { intros i Hi. unfold sall. rewrite (@chunks_nth T SH SW l i HSW Hl).
+    destruct (Nat.ltb_spec i SH); [reflexivity|lia]. }
+  assert (NO : forall i, (i < OH)%nat -> nth_error oall i = Some (firstn OW (skipn (i * OW) ol))).
+  { intros i Hi. unfold oall. rewrite (@chunks_nth T OH OW ol i HOW Hol).
+    destruct (Nat.ltb_spec i OH); [reflexivity|lia]. }
+  assert (DO : forall i j, (i < OH)%nat -> (j < OW)%nat ->
+             nth_error (firstn OW (skipn (i * OW) ol)) j = Some d).
+  { intros i j Hi Hj. rewrite chunk_nth by assumption. apply Hd. nia. }
+  assert (LOrow : forall i, (i < OH)%nat -> length (firstn OW (skipn (i * OW) ol)) = OW).
+  { intros i Hi. rewrite firstn_length, skipn_length. nia. }
+  assert (LSrow : forall i, (i < SH)%nat -> length (firstn SW (skipn (i * SW) l)) = SW).
+  { intros i Hi. rewrite firstn_length, skipn_length. nia. }
+  set (src := skipn srs (firstn sre sall)). set (dst := skipn ors (firstn ore oall)).
+  assert (Ldst : length dst = (ore - ors)%nat)
+    by (unfold dst; rewrite skipn_length, firstn_length; lia).
+  assert (Nsrc : forall k, (k < sre - srs)%nat ->
+            nth_error src k = Some (firstn SW (skipn ((srs + k) * SW) l))).
+  { intros k Hk. unfold src. rewrite nth_error_skipn_add, nth_error_firstn_lt by lia.
+    apply NS. lia. }
+  assert (Ndst : forall k, (k < ore - ors)%nat ->
+            nth_error dst k = Some (firstn OW (skipn ((ors + k) * OW) ol))).
+  { intros k Hk. unfold dst. rewrite nth_error_skipn_add, nth_error_firstn_lt by lia.
+    apply NO. lia. }
+  assert (Fsrc : Forall (fun s => sc1 <= length s)%nat src).
+  { unfold src. apply Forall_skipn', Forall_firstn'. eapply Forall_impl; [|exact FS].
+    cbv beta. intros row Hr. lia. }
+  assert (Fdst : Forall (fun t => dc1 <= length t)%nat dst).
+  { unfold dst. apply Forall_skipn', Forall_firstn'. eapply Forall_impl; [|exact FO].
+    cbv beta. intros row Hr. lia. }
+  destruct (@copy_rows_ok sc0 sc1 dc0 dc1 src dst Hc1 Hd1 Hcols Fsrc Fdst) as (mid & Hmid & Lmid & Nmid).
+  exists mid. split; [exact Hmid|].
+  (* rows of the result *)
+  assert (Nmid' : forall k, (k < ore - ors)%nat ->
+            nth_error mid k = Some (firstn dc0 (firstn OW (skipn ((ors + k) * OW) ol))
+                                    ++ firstn (sc1 - sc0) (skipn sc0 (firstn SW (skipn ((srs + k) * SW) l)))
+                                    ++ skipn dc1 (firstn OW (skipn ((ors + k) * OW) ol)))).
+  { intros k Hk. rewrite Nmid, Ndst, Nsrc by lia. reflexivity. }
+  set (out := firstn ors oall ++ mid ++ skipn ore oall).
+  assert (Lhead : length (firstn ors oall) = ors) by (rewrite firstn_length; lia).
+  assert (Nout : forall i, (i < OH)%nat ->
+            nth_error out i =
+              if (ors <=? i)%nat && (i <? ore)%nat then nth_error mid (i - ors) else nth_error oall i).
+  { intros i Hi. unfold out.
+    destruct (Nat.leb_spec ors i) as [H1|H1]; cbn [andb].
+    - rewrite nth_error_app2 by lia. rewrite Lhead.
+      destruct (Nat.ltb_spec i ore) as [H2|H2].
+      + apply nth_error_app1. lia.
+      + rewrite nth_error_app2 by lia. rewrite Lmid, Ldst, nth_error_skipn_add. f_equal. lia.
+    - rewrite nth_error_app1 by lia. apply nth_error_firstn_lt. lia. }
+  assert (Fout : Forall (fun row => length row = OW) out).
+  { apply Forall_forall. intros row Hin. apply In_nth_error in Hin. destruct Hin as [i Hi].
+    assert (HiOH : (i < OH)%nat).
+    { assert (Hlt : (i < length out)%nat) by (apply nth_error_Some; congruence).
+      unfold out in Hlt. rewrite !app_length, Lhead, Lmid, Ldst, skipn_length in Hlt. lia. }
+    rewrite (Nout i HiOH) in Hi.
+    destruct (Nat.leb_spec ors i) as [H1|H1]; destruct (Nat.ltb_spec i ore) as [H2|H2]; cbn [andb] in Hi.
+    - rewrite Nmid' in Hi by lia. injection Hi as <-.
+      rewrite copied_length; rewrite ?LOrow, ?LSrow by lia; lia.
+    - rewrite NO in Hi by lia. injection Hi as <-. apply LOrow. lia.
+    - rewrite NO in Hi by lia. injection Hi as <-. apply LOrow. lia.
+    - rewrite NO in Hi by lia. injection Hi as <-. apply LOrow. lia. }
+  assert (Lout : length out = OH).
+  { unfold out. rewrite !app_length, Lhead, Lmid, Ldst, skipn_length. lia. }
+  split; [rewrite (@concat_rect_length T OW out Fout), Lout; reflexivity|].
+  intros i j Hi Hj. rewrite (@concat_rect_nth T OW out i j Fout Hj), (Nout i Hi).
+  destruct (Nat.leb_spec ors i) as [H1|H1]; destruct (Nat.ltb_spec i ore) as [H2|H2]; cbn [andb];
+    try (rewrite NO by lia; apply DO; assumption).
+  rewrite Nmid' by lia.
+  rewrite copied_nth; rewrite ?LOrow, ?LSrow by lia; try lia.
+  destruct (Nat.leb_spec dc0 j) as [H3|H3]; destruct (Nat.ltb_spec j dc1) as [H4|H4]; cbn [andb];
+    try (apply DO; lia).
+  rewrite chunk_nth by lia. f_equal. nia.
+Qed.
+
+End CopyRows.
